@@ -12,7 +12,7 @@ def classify_exc(e, spec=None):
         return common.OOD, "zero base"
     if common.is_guard_exc(e):
         return common.OOD, "sizing guard"
-    if "No solution found" in s or "Optimization" in s or "optimization" in s or "singular" in s.lower() or "SVD did not converge" in s:
+    if "No solution found" in s or "Optimization" in s or "optimization" in s or "singular" in s.lower() or "SVD did not converge" in s or "nan hedge notional" in s:
         return common.OOD, "solver"
     if "cannot convert float NaN to integer" in s and spec is not None and STAT_ALGOS & set(w2.algo_names(spec)):
         # a statistical weigher returned NaN weights (degenerate window): not "valid weights" in the sense of C10
